@@ -80,7 +80,11 @@ void *rs_malloc(size_t req_size)
 
 void *rs_calloc(size_t nmemb, size_t size)
 {
-	size_t tot = nmemb * size;
+	size_t tot;
+	if(unlikely(__builtin_mul_overflow(nmemb, size, &tot))) {
+		errno = ENOMEM;
+		return NULL;
+	}
 	void *ret = rs_malloc(tot);
 
 	if(likely(ret))
